@@ -16,6 +16,7 @@ type C05Case struct {
 	Exposure bool
 	ViaInfos bool
 	Focus    string `json:",omitempty"`
+	Odd      bool   `json:",omitempty"` // a rule with endPort below port was appended
 }
 
 // stressPorts appends rules whose union is (or is nearly) the full set, spelled in non-canonical ways.
@@ -38,6 +39,29 @@ func stressPorts(t *rapid.T, w *World) {
 		r.Ports = []PPort{{PortNum: 70, EndPort: 90}, {PortNum: 80, EndPort: 100}, {PortNum: 101}}
 	}
 	if rapid.Bool().Draw(t, "stressdir") {
+		p.Ingress = append(p.Ingress, r)
+	} else {
+		p.Egress = append(p.Egress, r)
+	}
+}
+
+// stressOddPorts appends a rule with a port shape the API server would refuse but the tool reads without complaint (an
+// endPort below port). The predicate of C05 is about the report, whatever the manifests were: no reference needed.
+func stressOddPorts(t *rapid.T, w *World) {
+	if len(w.NPs) == 0 {
+		return
+	}
+	p := &w.NPs[rapid.IntRange(0, len(w.NPs)-1).Draw(t, "oddnp")]
+	var r Rule
+	switch rapid.IntRange(0, 2).Draw(t, "oddkind") {
+	case 0:
+		r.Ports = []PPort{{PortNum: 9000, EndPort: 8000}}
+	case 1:
+		r.Ports = []PPort{{PortNum: 9000, EndPort: 8000}, {PortNum: 5432}}
+	default:
+		r.Ports = []PPort{{PortNum: 8080}, {Proto: "UDP", PortNum: 2, EndPort: 1}}
+	}
+	if rapid.Bool().Draw(t, "odddir") {
 		p.Ingress = append(p.Ingress, r)
 	} else {
 		p.Egress = append(p.Egress, r)
@@ -90,6 +114,10 @@ func genC05(t *rapid.T) *C05Case {
 	if rapid.Bool().Draw(t, "stressi") {
 		stressIPs(t, c.W)
 	}
+	if rapid.IntRange(0, 3).Draw(t, "stressodd") == 0 {
+		stressOddPorts(t, c.W)
+		c.Odd = true
+	}
 	c.ViaInfos = rapid.IntRange(0, 3).Draw(t, "viainfos") == 0
 	if rapid.IntRange(0, 4).Draw(t, "focus") == 0 && len(c.W.Workloads) > 0 {
 		wl := c.W.Workloads[rapid.IntRange(0, len(c.W.Workloads)-1).Draw(t, "fw")]
@@ -107,6 +135,9 @@ func checkC05(c *C05Case, st *VStats) *VFailure {
 	res := RunList(dir, ListOpts{Exposure: c.Exposure, ViaInfos: c.ViaInfos, Focus: c.Focus})
 	if c.Focus != "" {
 		st.Class("with focus workload")
+	}
+	if c.Odd {
+		st.Class("a port range with endPort below port (read by the tool, refused by an API server)")
 	}
 	if res.Panic != nil {
 		return &VFailure{Msg: fmt.Sprintf("list panicked: %v", res.Panic), Sig: "panic"}
